@@ -52,6 +52,10 @@ def first_diffs(d):
         out.append({"kind": "classes-vs-complex-types",
                     "only_in_bindings": sorted(set(d["binding_classes"]) - set(d["complex_types"])),
                     "only_in_schema": sorted(set(d["complex_types"]) - set(d["binding_classes"]))})
+    if d["exported_classes"] != d["complex_types"]:
+        out.append({"kind": "public-export-vs-complex-types",
+                    "not_exported": sorted(set(d["complex_types"]) - set(d["exported_classes"])),
+                    "exported_without_type": sorted(set(d["exported_classes"]) - set(d["complex_types"]))})
     want = "NeuroML_%s.xsd" % d["current"]
     for k in ("header_schema", "writer_schema", "regen_schema"):
         if d[k] != want:
@@ -82,6 +86,7 @@ def run(ck):
            "  rf_nml := %s;" % _items(d["nml"]),
            "  rf_dangling := %s;" % coq_list(["(%s, %s)" % (coq_str(a), coq_str(b)) for a, b in d["dangling_specs"]]),
            "  rf_binding_classes := %s;" % coq_list([coq_str(x) for x in d["binding_classes"]]),
+           "  rf_exported_classes := %s;" % coq_list([coq_str(x) for x in d["exported_classes"]]),
            "  rf_complex_types := %s;" % coq_list([coq_str(x) for x in d["complex_types"]]),
            "  rf_current := %s;" % coq_str(d["current"]),
            "  rf_header_schema := %s;" % coq_str(d["header_schema"]),
